@@ -173,6 +173,114 @@ func (p stProp) Gen(r *Rand, idx int, tier string) Sx {
 	ops := []Sx{}
 	inst := func() int { return r.Intn(len(anc)) }
 	for len(ops) < nops {
+		// directed visibility scenario (hierarchical): the same object uploaded under two
+		// unrelated names, aged by a rotation burst, refreshed through one name, then an
+		// existence check through (a descendant of) the other name, then reads under
+		// every name: only descendants of the two uploaders may see it
+		if p.flavor == "c10" && hier && len(threads) == 0 && r.Chance(10) && len(anc) >= 3 {
+			unrelated := [][2]int{}
+			for a := 1; a < len(anc); a++ {
+				for b := 1; b < len(anc); b++ {
+					if a == b {
+						continue
+					}
+					rel := false
+					for _, x := range anc[b] {
+						if x == a {
+							rel = true
+						}
+					}
+					for _, x := range anc[a] {
+						if x == b {
+							rel = true
+						}
+					}
+					if !rel {
+						unrelated = append(unrelated, [2]int{a, b})
+					}
+				}
+			}
+			small, big := []int{}, []int{}
+			for o := 0; o < nobj; o++ {
+				if len(objs[o]) > 0 && len(objs[o])*4 <= bs {
+					small = append(small, o)
+				}
+				if len(objs[o])*2 > bs && len(objs[o]) <= bs {
+					big = append(big, o)
+				}
+			}
+			if len(unrelated) > 0 && len(small) > 0 && len(big) > 0 {
+				pr := unrelated[r.Intn(len(unrelated))]
+				x := small[r.Intn(len(small))]
+				put := func(o, i int) {
+					t := nextTid
+					nextTid++
+					ops = append(ops, L(A(1), AI(t), AI(o), AI(i)), L(A(2), AI(t), LBytes(objs[o])), L(A(3), AI(t), A(0)))
+				}
+				get := func(o, i int) {
+					t := nextTid
+					nextTid++
+					ops = append(ops, L(A(4), AI(t), AI(o), AI(i)), L(A(5), AI(t)))
+				}
+				put(x, pr[0])
+				put(x, pr[1])
+				for k := cur + nw + r.Intn(2); k > 0; k-- {
+					put(big[r.Intn(len(big))], 0)
+				}
+				get(x, pr[1])
+				desc := pr[0]
+				for j := range anc {
+					for _, a := range anc[j] {
+						if a == pr[0] && r.Chance(50) {
+							desc = j
+						}
+					}
+				}
+				ops = append(ops, L(A(6), L(L(AI(x), AI(desc)))))
+				for j := range anc {
+					get(x, j)
+				}
+				continue
+			}
+		}
+		// directed "newer blocks unaffected" scenario: corrupt exactly one region, make the
+		// affected object old, fill the newest block so that the refresh allocation of a
+		// read of that object has to rotate, read it (detection), then read the others
+		if corrupt && nblocks > 0 && len(threads) == 0 && len(ops) < 6 && r.Chance(45) {
+			small, big := []int{}, []int{}
+			for o := 0; o < nobj; o++ {
+				if len(objs[o]) > 0 && len(objs[o])*4 <= bs {
+					small = append(small, o)
+				}
+				if len(objs[o])*2 > bs && len(objs[o]) <= bs {
+					big = append(big, o)
+				}
+			}
+			if len(small) >= 2 && len(big) > 0 {
+				put := func(o, i int) {
+					t := nextTid
+					nextTid++
+					ops = append(ops, L(A(1), AI(t), AI(o), AI(i)), L(A(2), AI(t), LBytes(objs[o])), L(A(3), AI(t), A(0)))
+				}
+				get := func(o, i int) {
+					t := nextTid
+					nextTid++
+					ops = append(ops, L(A(4), AI(t), AI(o), AI(i)), L(A(5), AI(t)))
+				}
+				a := small[0]
+				put(a, 0)
+				for k := cur + nw + r.Intn(2); k > 0; k-- {
+					put(big[r.Intn(len(big))], 0)
+					put(small[1+r.Intn(len(small)-1)], 0)
+				}
+				ops = append(ops, L(A(9), AI(r.Intn(2)), A(0), AI(bs)))
+				get(a, 0)
+				for _, o := range small[1:] {
+					get(o, 0)
+				}
+				continue
+			}
+		}
 		// directed quarantine scenario: an upload is in flight into a block, the whole
 		// medium is garbled, a read of an earlier object of that block detects it, and
 		// only then the in-flight upload finishes (it must fail, and stay invisible)
